@@ -641,9 +641,38 @@ theorem inv_pushStore (f : Int → Outcome) (s : St) (id : Int) (h : Inv f s) : 
       · rw [if_neg hd]; exact base
   · rw [if_neg hin]; exact h
 
+theorem submitRejected_closed (th : TH) (h : th.isOpen = false) : submitRejected th = (th, .base) := by
+  simp [submitRejected, h, fact_refuses, refusalClass]
+
+theorem submitRejected_open (th : TH) (h : th.isOpen = true) :
+    submitRejected th = ({ th with jobId := th.jobId + 1 }, .exc) := by
+  simp [submitRejected, h, fact_accepts, nextId]
+
+theorem pushRejected_eq (s : St) :
+    pushRejected s = { s with th := { s.th with jobId := if s.th.isOpen then s.th.jobId + 1 else s.th.jobId },
+                              refused := s.refused + 1 } := by
+  cases ho : s.th.isOpen with
+  | false =>
+    have : s.th = { s.th with jobId := s.th.jobId } := rfl
+    simp [pushRejected, fact_viaSubmit, fact_noInline, submitRejected_closed _ ho]
+  | true => simp [pushRejected, fact_viaSubmit, fact_noInline, submitRejected_open _ ho]
+
+theorem inv_pushRejected (f : Int → Outcome) (s : St) (h : Inv f s) : Inv f (pushRejected s) := by
+  rw [pushRejected_eq]
+  have hj := h.jobnn
+  refine ⟨?_, ?_, h.nodup, h.pend, h.cbdone, h.onceQ, h.onceR, h.onceD, h.storingOpen, h.closedW, h.closedR, h.noraise,
+    h.caller⟩
+  · show 0 ≤ (if s.th.isOpen then s.th.jobId + 1 else s.th.jobId); split <;> omega
+  · intro t ht
+    have := h.pos t ht
+    refine ⟨this.1, ?_⟩
+    show t.id ≤ (if s.th.isOpen then s.th.jobId + 1 else s.th.jobId)
+    split <;> omega
+
 theorem inv_step (f : Int → Outcome) (s : St) (st : Step) (h : Inv f s) : Inv f (step f s st) := by
   cases st with
   | push => exact inv_push f s h
+  | pushRejected => exact inv_pushRejected f s h
   | pushBegin => exact inv_pushBegin f s h
   | pushStore id => exact inv_pushStore f s id h
   | flushTimeout => exact inv_flushTimeout f s h
@@ -693,6 +722,13 @@ theorem erase_erase (s : St) : erase (erase s) = erase s := by
 theorem erase_step (f g : Int → Outcome) (s : St) (st : Step) :
     erase (step f s st) = erase (step g (erase s) st) := by
   cases st with
+  | pushRejected =>
+    show erase (pushRejected s) = erase (pushRejected (erase s))
+    rw [pushRejected_eq, pushRejected_eq]
+    simp only [erase, List.map_map]
+    have : (eraseTask ∘ eraseTask) = eraseTask := by funext t; simp [Function.comp, eraseTask]
+    rw [this]
+    rfl
   | push =>
     show erase (push s) = erase (push (erase s))
     cases ho : s.th.isOpen with
